@@ -23,8 +23,176 @@ def join(*states):
         return None
     out = live[0]
     for s in live[1:]:
-        out = out & s
+        out = _join2(out, s)
     return out
+
+
+def _join2(a, b):
+    """facts holding on both paths; for the condition clauses additionally every disjunction
+    c1 | c2 of a clause known only on one path with a clause known only on the other (bounded) --
+    this is what keeps  not (A and B)  after  `if A: if B: raise`"""
+    common = a & b
+    only_a = [f for f in a - common if isinstance(f, tuple) and f and f[0] == 'cl']
+    only_b = [f for f in b - common if isinstance(f, tuple) and f and f[0] == 'cl']
+    if only_a and only_b and len(only_a) <= 60 and len(only_b) <= 60:
+        extra = set()
+        for x in only_a:
+            for y in only_b:
+                c = x[1] | y[1]
+                if len(c) <= 4 and not any((atom, not pol) in c for atom, pol in c):
+                    extra.add(c)
+        # keep the strongest (subsumption), bounded
+        keep = []
+        for c in sorted(extra, key=len):
+            if not any(k <= c for k in keep):
+                keep.append(c)
+            if len(keep) >= 60:
+                break
+        if keep:
+            return common | frozenset(('cl', c) for c in keep)
+    return common
+
+
+# ----------------------------------------------------------------------------- condition clauses
+_FLIPPOS = {ast.IsNot: ast.Is, ast.NotEq: ast.Eq, ast.NotIn: ast.In}
+
+
+def literal(e):
+    """(atom text, polarity) of a test leaf, with one spelling for a comparison and its negation"""
+    if isinstance(e, ast.UnaryOp) and isinstance(e.op, ast.Not):
+        a, p = literal(e.operand)
+        return a, not p
+    if isinstance(e, ast.Compare) and len(e.ops) == 1:
+        op, l, r = e.ops[0], e.left, e.comparators[0]
+        # emptiness tests of a sized object: len(x) != 0, len(x) > 0, len(x) >= 1, 0 < len(x) ...
+        for a, b, flipped in ((l, r, False), (r, l, True)):
+            if isinstance(a, ast.Call) and isinstance(a.func, ast.Name) and a.func.id == 'len' and \
+                    isinstance(b, ast.Constant) and b.value in (0, 1):
+                t = type(op)
+                if flipped:
+                    t = {ast.Lt: ast.Gt, ast.Gt: ast.Lt, ast.LtE: ast.GtE, ast.GtE: ast.LtE}.get(t, t)
+                key = (t, b.value)
+                nonempty = {(ast.NotEq, 0): True, (ast.Gt, 0): True, (ast.GtE, 1): True,
+                            (ast.Eq, 0): False, (ast.LtE, 0): False, (ast.Lt, 1): False}.get(key)
+                if nonempty is not None:
+                    return ast.unparse(a), nonempty
+        if type(op) in _FLIPPOS:
+            pos = ast.Compare(left=l, ops=[_FLIPPOS[type(op)]()], comparators=[r])
+            return ast.unparse(pos), False
+        if isinstance(op, ast.Gt):
+            return ast.unparse(ast.Compare(left=r, ops=[ast.Lt()], comparators=[l])), True
+        if isinstance(op, ast.GtE):
+            return ast.unparse(ast.Compare(left=l, ops=[ast.Lt()], comparators=[r])), False
+        if isinstance(op, ast.LtE):
+            return ast.unparse(ast.Compare(left=r, ops=[ast.Lt()], comparators=[l])), False
+    return ast.unparse(e), True
+
+
+def clauses(test, truth):
+    """CNF (set of frozensets of literals) implied by `test` evaluating to `truth`; sub-formulas
+    that would need distribution are dropped (sound: fewer facts)"""
+    if isinstance(test, ast.UnaryOp) and isinstance(test.op, ast.Not):
+        return clauses(test.operand, not truth)
+    if isinstance(test, ast.BoolOp):
+        conj = (isinstance(test.op, ast.And) and truth) or (isinstance(test.op, ast.Or) and not truth)
+        if conj:
+            out = set()
+            for v in test.values:
+                out |= clauses(v, truth)
+            return out
+        # a disjunction: one clause, when every operand contributes a single literal clause;
+        # operands that are conjunctions are distributed one level (bounded)
+        parts = [clauses(v, truth) for v in test.values]
+        if any(not p for p in parts):
+            return set()
+        combos = [frozenset()]
+        for p in parts:
+            if len(p) * len(combos) > 16:
+                return set()
+            combos = [c | q for c in combos for q in p]
+        return {c for c in combos if len(c) <= 5 and not any((a, not pol) in c for a, pol in c)}
+    a, p = literal(test)
+    return {frozenset({(a, p if truth else not p)})}
+
+
+def holds(state, expr, truth=True):
+    """does the state imply that `expr` (source text or ast) evaluates to `truth`?"""
+    if state is None:
+        return True
+    if isinstance(expr, str):
+        expr = ast.parse(expr, mode='eval').body
+    need = clauses(expr, truth)
+    if not need:
+        return False
+    have = [f[1] for f in state if isinstance(f, tuple) and f and f[0] == 'cl']
+    return all(any(h <= c for h in have) for c in need)
+
+
+def _add_clauses(state, new):
+    """add clauses and close under unit resolution (bounded)"""
+    have = {f[1] for f in state if isinstance(f, tuple) and f and f[0] == 'cl'}
+    work = set(new) - have
+    have |= work
+    for _ in range(4):
+        units = {next(iter(c)) for c in have if len(c) == 1}
+        if not units:
+            break
+        derived = set()
+        for c in have:
+            if len(c) > 1:
+                cut = frozenset(l for l in c if (l[0], not l[1]) not in units)
+                if cut and cut != c and cut not in have:
+                    derived.add(cut)
+        if not derived:
+            break
+        have |= derived
+    return frozenset(f for f in state if not (isinstance(f, tuple) and f and f[0] == 'cl')) | \
+        frozenset(('cl', c) for c in have)
+
+
+def _boolish(e):
+    if isinstance(e, (ast.Compare, ast.BoolOp)):
+        return True
+    if isinstance(e, ast.UnaryOp) and isinstance(e.op, ast.Not):
+        return True
+    if isinstance(e, ast.Call):
+        f = e.func
+        if isinstance(f, ast.Name) and f.id in ('isinstance', 'any', 'all', 'hasattr', 'callable'):
+            return True
+        if isinstance(f, ast.Attribute) and f.attr in ('any', 'all'):
+            return True
+    if isinstance(e, ast.Constant) and isinstance(e.value, bool):
+        return True
+    return False
+
+
+def clauses_of(state):
+    return [f[1] for f in (state or ()) if isinstance(f, tuple) and f and f[0] == 'cl']
+
+
+def _kill(state, stored_names, stored_attrs):
+    """drop the clauses that talk about a name / attribute that has just been re-bound"""
+    if state is None or (not stored_names and not stored_attrs):
+        return state
+    out = set()
+    for f in state:
+        if isinstance(f, tuple) and f and f[0] == 'cl':
+            txts = [a for a, _p in f[1]]
+            dead = False
+            for t in txts:
+                try:
+                    tree = ast.parse(t, mode='eval')
+                except SyntaxError:
+                    continue
+                for n in ast.walk(tree):
+                    if isinstance(n, ast.Name) and n.id in stored_names:
+                        dead = True
+                    if isinstance(n, ast.Attribute) and n.attr in stored_attrs:
+                        dead = True
+            if dead:
+                continue
+        out.add(f)
+    return frozenset(out)
 
 
 class Outcome:
@@ -75,11 +243,50 @@ class MustFlow:
     def run(self, stmts, init=frozenset()):
         return self.walk(list(stmts), frozenset(init))
 
+    def _branch(self, test, truth, state):
+        """rule-specific refinement plus the generic condition clauses"""
+        if state is None:
+            return None
+        out = self.refine(test, truth, state)
+        if out is None:
+            return None
+        return _add_clauses(out, clauses(test, truth))
+
     def _eval(self, expr, state):
         if expr is None or state is None:
             return state
         self.visit(expr, state)
         out = self.transfer(expr, state)
+        if isinstance(expr, (ast.Assign, ast.AugAssign, ast.AnnAssign, ast.Delete)) and out is not None:
+            names, attrs = set(), set()
+            tgts = expr.targets if isinstance(expr, (ast.Assign, ast.Delete)) else [expr.target]
+            for t in tgts:
+                for n in ast.walk(t):
+                    if isinstance(n, ast.Name) and isinstance(n.ctx, (ast.Store, ast.Del)):
+                        names.add(n.id)
+                    elif isinstance(n, ast.Attribute) and isinstance(n.ctx, (ast.Store, ast.Del)):
+                        attrs.add(n.attr)
+                    elif isinstance(n, ast.Subscript) and isinstance(n.ctx, (ast.Store, ast.Del)):
+                        for m in ast.walk(n.value):
+                            if isinstance(m, ast.Name):
+                                names.add(m.id)
+                            elif isinstance(m, ast.Attribute):
+                                attrs.add(m.attr)
+            out = _kill(out, names, attrs)
+            # a named condition  flag = <boolean expression>:  flag <-> expression
+            if isinstance(expr, ast.Assign) and len(expr.targets) == 1 and isinstance(expr.targets[0], ast.Name) \
+                    and _boolish(expr.value) and expr.targets[0].id not in {n.id for n in ast.walk(expr.value)
+                                                                            if isinstance(n, ast.Name)}:
+                m = expr.targets[0].id
+                if isinstance(expr.value, ast.Constant):
+                    out = _add_clauses(out, {frozenset({(m, bool(expr.value.value))})})
+                else:
+                    eq = set()
+                    for c in clauses(expr.value, True):         # flag -> expression
+                        eq.add(c | {(m, False)})
+                    for c in clauses(expr.value, False):        # not flag -> not expression
+                        eq.add(c | {(m, True)})
+                    out = _add_clauses(out, {c for c in eq if len(c) <= 5})
         if self._trace is not None:
             self._trace.append(out)
         return out
@@ -99,8 +306,8 @@ class MustFlow:
     def stmt(self, st, state):
         if isinstance(st, ast.If):
             s0 = self._eval(st.test, state)
-            t = self.walk(st.body, self.refine(st.test, True, s0))
-            f = self.walk(st.orelse, self.refine(st.test, False, s0))
+            t = self.walk(st.body, self._branch(st.test, True, s0))
+            f = self.walk(st.orelse, self._branch(st.test, False, s0))
             o = Outcome(join(t.normal, f.normal))
             o.absorb(t)
             o.absorb(f)
@@ -153,8 +360,8 @@ class MustFlow:
                 exit_state = head
             else:
                 h = self._eval(st.test, head)
-                body_in = self.refine(st.test, True, h)
-                exit_state = self.refine(st.test, False, h)
+                body_in = self._branch(st.test, True, h)
+                exit_state = self._branch(st.test, False, h)
             body = self.walk(st.body, body_in)
             new_head = join(entry, body.normal, *[s for s, _ in body.continues])
             if new_head == head:
